@@ -13,14 +13,16 @@ from checks.c03_protoclusters import _build_ruleset, detection_specs
 
 PROPERTY_ID = "C07"
 LEVEL = "exploration"
-RULE = ("C03's record/ruleset generator. rotation: circular records; for every case ALL rotations k in [0,L) when L <= 60, "
+RULE = ("C03's record/ruleset generator. rotation: circular records; for every case ALL rotations k in [0,L) when L <= 80, "
         "otherwise every gene boundary -1/0/+1, the middle of every gene and evenly spaced offsets (<= 40); the rotation is "
         "applied to the spec (coordinates (x-k) mod L, genes cut by the new origin become origin-spanning with the documented "
         "part order), detection + candidate cluster + region creation are run on both and coordinate-free summaries (per rule: "
         "core genes and member genes of each protocluster; candidates by kind and member protoclusters; regions by member "
         "genes; definition domains per gene) must be equal whenever every region is shorter than half the record. order: all "
         "orders of the rules that keep superiors before inferiors (<= 24) and all sub-selections closed under superiors; the "
-        "protoclusters of each rule must be identical. Non-trivial: a rotation cuts a gene / core / neighbourhood, or the "
+        "protoclusters of each rule must be identical. get_ruleset: histories of 2-4 ruleset requests in one process "
+        "(strictness, taxon, rule/category limits, fungal multipliers); each returned ruleset must hold exactly the selected "
+        "shipped rules in file order with the rule file's distances scaled once by that request's multipliers. Non-trivial: a rotation cuts a gene / core / neighbourhood, or the "
         "ruleset has >= 3 rules with >= 2 distinct cutoffs.")
 ASSUMPTIONS = [
     "membership of genes in cores/areas is read with Record.get_cds_features_within_location (decided by C08)",
@@ -132,7 +134,7 @@ def _jsonable(value):
 
 def _offsets(spec: dict) -> list:
     length = spec["L"]
-    if length <= 60:
+    if length <= 80:
         return list(range(1, length))
     chosen = set()
     for gene in spec["genes"]:
@@ -257,7 +259,72 @@ def _summaries_no_areas(spec: dict, rule_subset=None, rule_order=None) -> dict:
     return {product: sorted(items) for product, items in out.items()}
 
 
-SUBCHECKS = {"rotation": check_rotation, "rule_order": check_rule_order}
+_REFERENCE_FILES: dict = {}
+
+
+def _reference_rules(strictness: str) -> list:
+    """ the shipped rules of a strictness level read by the independent reference parser (vlib/rules.py) """
+    if strictness not in _REFERENCE_FILES:
+        from antismash.detection import hmm_detection
+        from vlib import rules as rule_model
+        texts = []
+        for path in hmm_detection._get_rule_files_for_strictness(strictness):  # pylint: disable=protected-access
+            with open(path, encoding="utf-8") as handle:
+                texts.append(handle.read())
+        _REFERENCE_FILES[strictness] = rule_model.parse_file("\n".join(texts))["rules"]
+    return _REFERENCE_FILES[strictness]
+
+
+def check_get_ruleset(spec: dict) -> dict:
+    """ a history of ruleset requests in one process: every ruleset must hold exactly the selected rules, in file
+        order, each with the distances of the rule file scaled once by the multipliers of THAT request """
+    import importlib
+    import types
+    from antismash.detection import hmm_detection
+    importlib.reload(hmm_detection)   # every case starts from fresh module state (ruleset caches)
+    seen_conditions: dict = {}
+    for index, request in enumerate(spec["requests"]):
+        options = types.SimpleNamespace(
+            hmmdetection_strictness=request["strictness"],
+            hmmdetection_limit_to_rules=list(request["rules"]),
+            hmmdetection_limit_to_categories=list(request["categories"]),
+            taxon=request["taxon"],
+            hmmdetection_fungal_cutoff_multiplier=request["mc"],
+            hmmdetection_fungal_neighbourhood_multiplier=request["mn"],
+        )
+        with code_under_test("get_ruleset_total"):
+            ruleset = hmm_detection.get_ruleset(options)
+        reference = _reference_rules(request["strictness"])
+        wanted = [rule for rule in reference
+                  if (not request["rules"] or rule["name"] in request["rules"])
+                  and (not request["categories"] or rule["category"] in request["categories"])]
+        got_names = [rule.name for rule in ruleset.rules]
+        if got_names != [rule["name"] for rule in wanted]:
+            raise Violation("ruleset_selection", {"request": index, "got": got_names[:12],
+                                                  "want": [rule["name"] for rule in wanted][:12]})
+        mult_c, mult_n = (request["mc"], request["mn"]) if request["taxon"] == "fungi" else (1.0, 1.0)
+        for rule, ref in zip(ruleset.rules, wanted):
+            want = (int(ref["cutoff_kb"] * 1000 * mult_c), int(ref["neighbourhood_kb"] * 1000 * mult_n))
+            if (rule.cutoff, rule.neighbourhood) != want:
+                raise Violation("ruleset_distances", {"request": index, "rule": rule.name,
+                                                      "got": [rule.cutoff, rule.neighbourhood], "want": list(want),
+                                                      "history": spec["requests"][:index + 1]})
+            text = str(rule.conditions)
+            if seen_conditions.setdefault(rule.name, text) != text:
+                raise Violation("ruleset_conditions_changed", {"request": index, "rule": rule.name})
+    distinct = len({json_key(r) for r in spec["requests"]})
+    fungal = sum(1 for r in spec["requests"] if r["taxon"] == "fungi" and (r["mc"] != 1.0 or r["mn"] != 1.0))
+    return {"nontrivial": distinct >= 2 and fungal >= 1,
+            "classes": [f"requests_{len(spec['requests'])}", f"fungal_{min(fungal, 3)}",
+                        "repeated_request" if distinct < len(spec["requests"]) else "all_distinct"]}
+
+
+def json_key(request: dict) -> str:
+    import json
+    return json.dumps(request, sort_keys=True)
+
+
+SUBCHECKS = {"rotation": check_rotation, "rule_order": check_rule_order, "get_ruleset": check_get_ruleset}
 SIGNATURES: dict = {}
 
 
@@ -273,7 +340,7 @@ def circular_specs(draw) -> dict:
 def small_circular_specs(draw) -> dict:
     """ small rings so that all rotations are tried; clusters kept small relative to L """
     from checks.c03_protoclusters import PROFILES
-    length = draw(st.integers(36, 60))
+    length = draw(st.integers(40, 80))
     count = draw(st.integers(1, 3))
     spec_rules = []
     for index in range(count):
@@ -292,7 +359,8 @@ def small_circular_specs(draw) -> dict:
                            "cutoff": draw(st.sampled_from([1, 2, 4, 7])),
                            "neighbourhood": draw(st.sampled_from([0, 1, 3, 5]))})
     gaps = tuple(sorted({max(0, r["cutoff"] + d) for r in spec_rules for d in (-1, 0, 1)}))
-    genes = draw(gen.gene_layout(length, True, max_genes=7, size_hint=4, gap_choices=gaps, multi_exon=True))
+    genes = draw(gen.gene_layout(length, True, max_genes=7, size_hint=draw(st.sampled_from([4, 8])), gap_choices=gaps,
+                                 multi_exon=True))
     from vlib import rules as rule_model
     used = sorted(set().union(*[rule_model.profiles_of(rule["conditions"]) for rule in spec_rules]))
     hits = {}
@@ -302,7 +370,80 @@ def small_circular_specs(draw) -> dict:
     return {"L": length, "circular": True, "genes": genes, "hits": hits, "rules": spec_rules}
 
 
+@st.composite
+def two_gene_rule_specs(draw) -> dict:
+    """ a rule that needs hits on two different genes, one of them multi-exon, close together on a small ring:
+        every rotation puts the origin somewhere between / inside them """
+    length = draw(st.integers(40, 80))
+    cutoff = draw(st.sampled_from([2, 4, 7]))
+    start = draw(st.integers(0, length - 1))
+    exon1 = draw(st.integers(3, 5))
+    intron = draw(st.integers(1, 4))
+    exon2 = draw(st.integers(3, 5))
+    gap = draw(st.integers(0, cutoff - 1))
+    size_b = draw(st.integers(3, 6))
+    strand_a = draw(st.sampled_from([1, -1]))
+    first_is_multi = draw(st.booleans())
+    pieces = [("exon", exon1), ("intron", intron), ("exon", exon2), ("gap", gap), ("b", size_b)]
+    if not first_is_multi:
+        pieces = [("b", size_b), ("gap", gap), ("exon", exon1), ("intron", intron), ("exon", exon2)]
+    pos = 0
+    parts_a, part_b = [], None
+    for kind, size in pieces:
+        if kind == "exon":
+            parts_a.append([pos, pos + size])
+        elif kind == "b":
+            part_b = [pos, pos + size]
+        pos += size
+    if pos + 6 > length:
+        length = pos + 6
+    base = {"g0": {"parts": parts_a if strand_a == 1 else list(reversed(parts_a)), "strand": strand_a, "kind": "multi"},
+            "g1": {"parts": [part_b], "strand": draw(st.sampled_from([1, -1])), "kind": "simple"}}
+    genes = [{"name": name, "loc": _rotate_loc(loc, -start, length)} for name, loc in base.items()]
+    # an unrelated gene far away, when there is room
+    if length - pos >= 3 * cutoff + 8:
+        far = pos + cutoff + 2
+        genes.append({"name": "g2", "loc": _rotate_loc({"parts": [[far, far + 3]], "strand": 1, "kind": "simple"}, -start, length)})
+    conditions = draw(st.sampled_from([
+        ["and", [["id", "a"], ["id", "b"]]], ["minimum", 2, ["a", "b"]],
+        ["and", [["id", "a"], ["not", ["id", "c"]], ["id", "b"]]],
+        ["or", [["and", [["id", "a"], ["id", "b"]]], ["id", "d"]]],
+    ]))
+    hits = {"g0": {"a": 100}, "g1": {"b": 100}}
+    if len(genes) > 2:
+        hits["g2"] = {draw(st.sampled_from(["c", "d", "a"])): 100}
+    rules_spec = [{"name": "r0", "conditions": conditions, "superiors": [], "extenders": None, "cutoff": cutoff,
+                   "neighbourhood": draw(st.sampled_from([0, 1, 3]))}]
+    return {"L": length, "circular": True, "genes": genes, "hits": hits, "rules": rules_spec}
+
+
+SOME_RULES = ["T1PKS", "NRPS", "fungal_CDPS", "terpene", "lanthipeptide-class-i", "NRPS-like", "T3PKS", "betalactone",
+              "fungal-RiPP-like", "indole"]
+SOME_CATEGORIES = ["PKS", "NRPS", "RiPP", "terpene", "other"]
+
+
+@st.composite
+def ruleset_requests(draw) -> dict:
+    requests = []
+    for _ in range(draw(st.integers(2, 4))):
+        if requests and draw(st.integers(0, 3)) == 0:
+            requests.append(dict(draw(st.sampled_from(requests))))
+            continue
+        requests.append({
+            "strictness": draw(st.sampled_from(["strict", "relaxed", "relaxed", "loose"])),
+            "taxon": draw(st.sampled_from(["fungi", "fungi", "bacteria"])),
+            "rules": sorted(draw(st.lists(st.sampled_from(SOME_RULES), max_size=3, unique=True))),
+            "categories": sorted(draw(st.lists(st.sampled_from(SOME_CATEGORIES), max_size=2, unique=True)))
+            if draw(st.integers(0, 2)) == 0 else [],
+            "mc": draw(st.sampled_from([1.0, 1.0, 1.5, 0.5])),
+            "mn": draw(st.sampled_from([1.5, 1.5, 1.0, 2.0])),
+        })
+    return {"requests": requests}
+
+
 def run(ctx) -> None:
+    ctx.hyp("get_ruleset", ruleset_requests(), max_examples=ctx.pick(120, 3000), shards=ctx.pick(8, 16))
+    ctx.hyp("rotation", two_gene_rule_specs(), max_examples=ctx.pick(60, 1500), shards=ctx.pick(8, 16))
     ctx.hyp("rotation", small_circular_specs(), max_examples=ctx.pick(160, 4000), shards=ctx.pick(8, 16))
     ctx.hyp("rotation", circular_specs(), max_examples=ctx.pick(120, 3000), shards=ctx.pick(8, 16))
     ctx.hyp("rule_order", detection_specs(), max_examples=ctx.pick(500, 12000), shards=ctx.pick(8, 16))
